@@ -120,6 +120,8 @@ type Unit struct {
 	Key  string
 	Cost int
 	Run  func(c *Ctx)
+	// First: scheduled before the units ordered by cost (cheap units that look at a whole class of defects at once).
+	First bool
 }
 
 // Check describes one property check.
@@ -155,7 +157,26 @@ func RunShard(ch *Check, tier string, seed int64, i, n int, only string, unitFil
 	ctx := NewCtx(ch.ID, tier, seed)
 	ctx.Only = only
 	units := ch.Units(tier)
-	sort.SliceStable(units, func(a, b int) bool { return units[a].Cost > units[b].Cost })
+	sort.SliceStable(units, func(a, b int) bool {
+		if units[a].First != units[b].First {
+			return units[a].First
+		}
+		return units[a].Cost > units[b].Cost
+	})
+	// Two guards against a tree on which the exploration explodes (a change that makes every pipeline touch one shared
+	// object turns each scenario's DPOR into thousands of traces): no shard starts further units (beyond its first four) once any shard of
+	// the run holds an unexplained violation (the verdict is settled), and once the tier's time budget is used up (25 min quick, 150 min
+	// thorough; ten times what the slowest check needs on the unchanged tree). Units not run are reported: the run
+	// is then not exhaustive, which a violation-free run on the unchanged tree never is for this reason.
+	budget := 25 * time.Minute
+	if tier == "thorough" {
+		budget = 150 * time.Minute
+	}
+	if v, err := strconv.Atoi(os.Getenv("VERIF_SHARD_BUDGET_S")); err == nil && v > 0 {
+		budget = time.Duration(v) * time.Second
+	}
+	deadline := time.Now().Add(budget)
+	skippedViol, skippedTime := 0, 0
 	for k, u := range units {
 		if k%n != i {
 			continue
@@ -164,6 +185,28 @@ func RunShard(ch *Check, tier string, seed int64, i, n int, only string, unitFil
 			continue
 		}
 		if pre := os.Getenv("VERIF_ONLY"); pre != "" && !matchAny(u.Key, pre) {
+			continue
+		}
+		unexplained := 0
+		for _, f := range ctx.Findings {
+			if f.Key == "" {
+				unexplained++
+			}
+		}
+		stop := os.Getenv("VERIF_STOPFILE")
+		if unexplained > 0 && stop != "" {
+			os.WriteFile(stop, []byte(ctx.Findings[0].Unit), 0o600) // tells the other shards of this run
+		}
+		if unitFilter == "" && stop != "" {
+			if _, err := os.Stat(stop); err == nil && k >= 4*n {
+				// some shard holds an unexplained violation: the verdict is settled, no further units are started
+				// (every shard still runs its first four units, so that a run reports more than one witness)
+				skippedViol++
+				continue
+			}
+		}
+		if time.Now().After(deadline) {
+			skippedTime++
 			continue
 		}
 		ctx.Unit = u.Key
@@ -179,7 +222,24 @@ func RunShard(ch *Check, tier string, seed int64, i, n int, only string, unitFil
 		}()
 	}
 	ctx.Unit = ""
+	if skippedViol > 0 {
+		ctx.NotExhaustive(fmt.Sprintf("an unexplained violation was found: remaining units not run (%d in one shard)", skippedViol))
+	}
+	if skippedTime > 0 {
+		ctx.NotExhaustive(fmt.Sprintf("a shard used up its time budget of %v (%d units of it not run)", budget, skippedTime))
+	}
 	return ctx
+}
+
+// Stopped reports whether some shard of this run already holds an unexplained violation (see RunShard): long units
+// poll it between scenarios.
+func Stopped() bool {
+	stop := os.Getenv("VERIF_STOPFILE")
+	if stop == "" {
+		return false
+	}
+	_, err := os.Stat(stop)
+	return err == nil
 }
 
 // KnownFindings is the committed list of recorded defects.
@@ -228,7 +288,7 @@ func Drive(ch *Check, tier string, seed int64, root string, workers int, self st
 			if os.Getenv("VERIF_FREE") != "" {
 				gmp = "GOMAXPROCS=4" // free-running pass: real parallelism for the race detector
 			}
-			cmd.Env = append(os.Environ(), gmp, "VERIF_SEED="+strconv.FormatInt(seed, 10))
+			cmd.Env = append(os.Environ(), gmp, "VERIF_SEED="+strconv.FormatInt(seed, 10), "VERIF_STOPFILE="+filepath.Join(tmp, "violation-found"))
 			cmd.Stderr = os.Stderr
 			var sb strings.Builder
 			cmd.Stdout = &sb
